@@ -22,7 +22,8 @@ def run_case(world_pack, cfg, case, seed, pid=PID):
     """execute one case on a private copy of the configured pair; -> (violations, outcome, got)"""
     w, a, ra, b, rb = copy.deepcopy(world_pack)
     w.activate()
-    dyn, pl = cfg["dyn"], cfg["pl"]
+    # (expect_dyn: the configuration history ends in dynamic mode although `dynamic_payloads = False` came first)
+    dyn, pl = cfg.get("expect_dyn", cfg["dyn"]), cfg["pl"]
     lens = case["lens"]
     bufs = [mkbuf(n, seed, i + 1, case["buftype"], case.get("fill")) for i, n in enumerate(lens)]
     before = [bytes(x) for x in bufs]
@@ -217,6 +218,11 @@ def items(tier, seed, tx_cls="full", rx_cls="full", pid=PID):
     modes = [(True, 32)] + [(False, pl) for pl in range(1, 33)]
     for dyn, pl in modes:
         core.append((link.default_cfg(dyn=dyn, pl=pl, **base), seed, pid, lens))
+    if tx_cls == "lite" and rx_cls == "lite":
+        # rf24_lite: `dynamic_payloads = False; payload_length = n; ack = True` - the ack attribute switches
+        # dynamic payloads on again for all pipes (documented: global), so payloads travel unpadded
+        for pl in (1, 8, 32):
+            core.append((link.default_cfg(dyn=False, pl=pl, ack=True, expect_dyn=True, **base), seed, pid, lens))
     channels = (0, 76, 125) if tier == "quick" else tuple(range(126))
     crcaa = [(2, True)] if lite else [(0, False), (0, True), (1, True), (1, False), (2, True), (2, False)]
     fronts = [(fa, fb)] if lite else [("spidev", "busio"), ("busio", "spidev_pin")]
